@@ -87,3 +87,144 @@ package gts
 //@      (out.(Ranged).Partial.Partial5 <==> (ranged.Partial.Partial5 || (i <= ranged.Start && ranged.Start < i - n))) &&
 //@      (out.(Ranged).Partial.Partial3 <==> (ranged.Partial.Partial3 || (i <= ranged.End - 1 && ranged.End - 1 < i - n)))
 //@   assigns nothing
+
+//@ func (between Between) Shift(i, n int) (out Location)
+//@   prop C02 C10
+//@   requires coord(int(between)) && coord(i) && coord(n) && 0 <= i && 0 <= int(between)
+//@   ensures is(out, Between)
+//@   ensures n >= 0 && int(between) > i ==> int(out.(Between)) == int(between) + n
+//@   ensures n >= 0 && int(between) < i ==> int(out.(Between)) == int(between)
+//@   ensures n >= 0 && int(between) == i ==> (int(out.(Between)) == i || int(out.(Between)) == i + n)
+//@   assigns nothing
+
+//@ func (point Point) Shift(i, n int) (out Location)
+//@   prop C02 C10
+//@   requires coord(int(point)) && coord(i) && coord(n) && 0 <= i && 0 <= int(point)
+//@   ensures n >= 0 ==> is(out, Point) && int(out.(Point)) == ite(int(point) < i, int(point), int(point) + n)
+//@   assigns nothing
+
+// Exact result of deleting [i, i-n) (n < 0) from a range.
+//@ spec func rangedDelPost(r Ranged, i int, n int, out Location) bool =
+//@   (forall x: cov(out, x) <==> cov(r, ite(x < i, x, x - n))) &&
+//@   (i <= r.Start && r.End <= i - n ==> is(out, Between) && int(out.(Between)) == i) &&
+//@   (!(i <= r.Start && r.End <= i - n) ==> is(out, Ranged) && out.(Ranged).Start < out.(Ranged).End &&
+//@      (out.(Ranged).Partial.Partial5 <==> (r.Partial.Partial5 || (i <= r.Start && r.Start < i - n))) &&
+//@      (out.(Ranged).Partial.Partial3 <==> (r.Partial.Partial3 || (i <= r.End - 1 && r.End - 1 < i - n))))
+
+//@ func (ranged Ranged) Shift(i, n int) (out Location)
+//@   prop C02 C10
+//@   requires coord(ranged.Start) && coord(ranged.End) && coord(i) && coord(n)
+//@   requires 0 <= ranged.Start && ranged.Start < ranged.End && 0 <= i
+//@   ensures keep: n >= 0 && !(ranged.Start < i && i < ranged.End) ==> is(out, Ranged) && out.(Ranged).Partial == ranged.Partial &&
+//@      out.(Ranged).Start == ite(i <= ranged.Start, ranged.Start + n, ranged.Start) &&
+//@      out.(Ranged).End == ite(i < ranged.End, ranged.End + n, ranged.End) &&
+//@      (forall x: cov(out, x) <==> ite(x < i, cov(ranged, x), x >= i + n && cov(ranged, x - n)))
+//@   ensures split: n > 0 && ranged.Start < i && i < ranged.End ==> is(out, Joined) && len(out.(Joined)) == 2 &&
+//@      is(out.(Joined)[0], Ranged) && out.(Joined)[0].(Ranged) == Ranged{ranged.Start, i, Partial{ranged.Partial.Partial5, false}} &&
+//@      is(out.(Joined)[1], Ranged) && out.(Joined)[1].(Ranged) == Ranged{i + n, ranged.End + n, Partial{false, ranged.Partial.Partial3}}
+//@   ensures del: n < 0 ==> rangedDelPost(ranged, i, n, out)
+//@   assigns nothing
+
+//@ func (ambiguous Ambiguous) Expand(i, n int) (out Location)
+//@   prop C02 C03 C10
+//@   requires coord(ambiguous.Start) && coord(ambiguous.End) && coord(i) && coord(n)
+//@   requires 0 <= ambiguous.Start && ambiguous.Start < ambiguous.End && 0 <= i
+//@   ensures embed: n >= 0 ==> is(out, Ambiguous) &&
+//@      (forall x: cov(out, x) <==> ite(x < i, cov(ambiguous, x), ite(x >= i + n, cov(ambiguous, x - n), ambiguous.Start < i && i < ambiguous.End)))
+//@   ensures del_cov: n < 0 ==> (forall x: cov(out, x) <==> cov(ambiguous, ite(x < i, x, x - n)))
+//@   ensures del_gone: n < 0 && i <= ambiguous.Start && ambiguous.End <= i - n ==> is(out, Between) && int(out.(Between)) == i
+//@   ensures del_kind: n < 0 && !(i <= ambiguous.Start && ambiguous.End <= i - n) ==> is(out, Ambiguous) && out.(Ambiguous).Start < out.(Ambiguous).End
+//@   assigns nothing
+
+//@ func (ambiguous Ambiguous) Shift(i, n int) (out Location)
+//@   prop C02 C10
+//@   requires coord(ambiguous.Start) && coord(ambiguous.End) && coord(i) && coord(n)
+//@   requires 0 <= ambiguous.Start && ambiguous.Start < ambiguous.End && 0 <= i
+//@   ensures keep: n >= 0 && !(ambiguous.Start < i && i < ambiguous.End) ==> is(out, Ambiguous) &&
+//@      (forall x: cov(out, x) <==> ite(x < i, cov(ambiguous, x), x >= i + n && cov(ambiguous, x - n)))
+//@   ensures split: n > 0 && ambiguous.Start < i && i < ambiguous.End ==> is(out, Ordered) && len(out.(Ordered)) == 2 &&
+//@      is(out.(Ordered)[0], Ambiguous) && out.(Ordered)[0].(Ambiguous) == Ambiguous{ambiguous.Start, i} &&
+//@      is(out.(Ordered)[1], Ambiguous) && out.(Ordered)[1].(Ambiguous) == Ambiguous{i + n, ambiguous.End + n}
+//@   ensures del_cov: n < 0 ==> (forall x: cov(out, x) <==> cov(ambiguous, ite(x < i, x, x - n)))
+//@   ensures del_gone: n < 0 && i <= ambiguous.Start && ambiguous.End <= i - n ==> is(out, Between) && int(out.(Between)) == i
+//@   assigns nothing
+
+// Join / Order on two contiguous parts that do not abut (the shape produced by a split).
+//@ func Join(locs ...Location) (out Location)
+//@   prop C02 C04 C06
+//@   trusted LocationList is a pointer-linked list, outside the verified subset so far; only the two-range case is assumed
+//@   requires len(locs) >= 1
+//@   ensures len(locs) == 2 && is(locs[0], Ranged) && is(locs[1], Ranged) && locs[0].(Ranged).End != locs[1].(Ranged).Start ==>
+//@      is(out, Joined) && len(out.(Joined)) == 2 && out.(Joined)[0] == locs[0] && out.(Joined)[1] == locs[1]
+//@   assigns nothing
+
+//@ func Order(locs ...Location) (out Location)
+//@   prop C02
+//@   trusted flattenLocations is recursive over nested Ordered values; only the two-part case is assumed
+//@   requires len(locs) >= 1
+//@   ensures len(locs) == 2 && !is(locs[0], Ordered) && !is(locs[1], Ordered) ==>
+//@      is(out, Ordered) && len(out.(Ordered)) == 2 && out.(Ordered)[0] == locs[0] && out.(Ordered)[1] == locs[1]
+//@   assigns nothing
+
+// ---------------------------------------------------------------------------
+// location.go: Reverse (C05) and Normalize (C04), leaf kinds
+
+//@ func (point Point) Reverse(length int) (out Location)
+//@   prop C05
+//@   requires coord(length) && 0 <= int(point) && int(point) < length
+//@   ensures is(out, Point) && (forall x: cov(point, x) <==> cov(out, length - 1 - x))
+//@   assigns nothing
+
+//@ func (between Between) Reverse(length int) (out Location)
+//@   prop C05
+//@   requires coord(length) && 0 <= int(between) && int(between) <= length
+//@   ensures site: is(out, Between) && int(out.(Between)) == length - int(between)
+//@   assigns nothing
+
+//@ func (ranged Ranged) Reverse(length int) (out Location)
+//@   prop C05
+//@   requires coord(length) && 0 <= ranged.Start && ranged.Start < ranged.End && ranged.End <= length
+//@   ensures is(out, Ranged) && (forall x: cov(ranged, x) <==> cov(out, length - 1 - x))
+//@   ensures out.(Ranged).Partial.Partial5 == ranged.Partial.Partial3 && out.(Ranged).Partial.Partial3 == ranged.Partial.Partial5
+//@   assigns nothing
+
+//@ func (ambiguous Ambiguous) Reverse(length int) (out Location)
+//@   prop C05
+//@   requires coord(length) && 0 <= ambiguous.Start && ambiguous.Start < ambiguous.End && ambiguous.End <= length
+//@   ensures is(out, Ambiguous) && (forall x: cov(ambiguous, x) <==> cov(out, length - 1 - x))
+//@   assigns nothing
+
+//@ func (point Point) Normalize(length int) (out Location)
+//@   prop C04
+//@   requires coord(length) && 0 < length && 0 <= int(point) && coord(int(point))
+//@   ensures is(out, Point) && int(out.(Point)) == emod(int(point), length)
+//@   assigns nothing
+
+//@ func (between Between) Normalize(length int) (out Location)
+//@   prop C04
+//@   requires coord(length) && 0 < length && 0 <= int(between) && coord(int(between))
+//@   ensures is(out, Between) && int(out.(Between)) == emod(int(between), length)
+//@   assigns nothing
+
+//@ func (ranged Ranged) Normalize(length int) (out Location)
+//@   prop C04
+//@   requires coord(length) && 0 < length && 0 <= ranged.Start && ranged.Start < ranged.End && coord(ranged.End)
+//@   requires ranged.End - ranged.Start <= length && ranged.End <= 2*length
+//@   ensures full: ranged.End - ranged.Start == length ==> is(out, Ranged) && out.(Ranged) == Ranged{0, length, ranged.Partial}
+//@   ensures nowrap: ranged.End - ranged.Start < length && emod(ranged.Start, length) < emod(ranged.End - 1, length) + 1 ==>
+//@      is(out, Ranged) && out.(Ranged) == Ranged{emod(ranged.Start, length), emod(ranged.End - 1, length) + 1, ranged.Partial} &&
+//@      (forall x: 0 <= x && x < length ==> (cov(out, x) <==> (cov(ranged, x) || cov(ranged, x + length))))
+//@   ensures wrap: ranged.End - ranged.Start < length && !(emod(ranged.Start, length) < emod(ranged.End - 1, length) + 1) ==>
+//@      is(out, Joined) && len(out.(Joined)) == 2 &&
+//@      is(out.(Joined)[0], Ranged) && out.(Joined)[0].(Ranged) == Ranged{emod(ranged.Start, length), length, Partial{ranged.Partial.Partial5, false}} &&
+//@      is(out.(Joined)[1], Ranged) && out.(Joined)[1].(Ranged) == Ranged{0, emod(ranged.End - 1, length) + 1, Partial{false, ranged.Partial.Partial3}} &&
+//@      (forall x: 0 <= x && x < length ==> ((cov(out.(Joined)[0], x) || cov(out.(Joined)[1], x)) <==> (cov(ranged, x) || cov(ranged, x + length))))
+//@   assigns nothing
+
+//@ func (ambiguous Ambiguous) Normalize(length int) (out Location)
+//@   prop C04
+//@   requires coord(length) && 0 < length && 0 <= ambiguous.Start && ambiguous.Start < ambiguous.End
+//@   requires ambiguous.End - ambiguous.Start <= length && ambiguous.End <= 2*length
+//@   requires emod(ambiguous.Start, length) < emod(ambiguous.End - 1, length) + 1
+//@   ensures is(out, Ambiguous) && out.(Ambiguous) == Ambiguous{emod(ambiguous.Start, length), emod(ambiguous.End - 1, length) + 1}
+//@   assigns nothing
